@@ -13,6 +13,11 @@
   `C01_norm_eq_mapR_canon` / `C01_file_norm_eq_mapR_canon` (what a round trip does, exactly), `C01_norm_close_full` /
   `C01_file_norm_close_full` (on strictly expressible content only the reals change), `C01_trunc_close` (by less than 10^-d).
 
+  `enc` and `dec` of `child` / `many` / `optional` share one tag string by construction, so a writer / reader tag mismatch is not
+  expressible in the model: that the CODE has no such mismatch is what the two-sided correspondence is for (model encode = the
+  real written tree, and independently model decode of the real file = the real reader's result) — `virtual` is the one place
+  where it found one, and the model has a dedicated codec for it (`virtualC`).
+
   Not covered by the theorems (trusted / sampled by the correspondence and the oracle): the byte level (XML escaping,
   `str(float)` / `float(str)`, `format(x, ".df")` and `np.format_float_positional` for reprs in exponent notation — parameters
   of the model; `str(int)` is `Int.repr`), `ScenarioID.from_benchmark_id ∘ str` (the benchmark id is a string here; C13),
@@ -22,6 +27,8 @@ import CRProofs.CRState
 import CRProofs.Decimal
 import CRProofs.CRNorm
 import CRProofs.CRFile
+import CRProofs.DecVal
+import CRProofs.CRReals
 import Mathlib.Data.List.Perm.Subperm
 
 namespace CR.X
@@ -69,19 +76,14 @@ theorem C01_nothing_foreign_written (cfg : Cfg) (hcfg : CfgOk cfg) (hne : cfg.cl
 
 /-! ## what `norm` does: discrete leaves untouched, reals truncated -/
 
-theorem C01_int_leaf (i : Int) : Prim.int.norm i = i := rfl
-theorem C01_bool_leaf (b : Bool) : Prim.boolStrict.norm b = b := rfl
-theorem C01_enum_leaf (vals : List String) (s : String) : (Prim.enum vals).norm s = s := rfl
-theorem C01_repr_leaf (s : String) : Prim.decRepr.norm s = s := rfl
-
-/-- reals written with `decimal_to_str` (rectangle length / width / orientation, circle radius) are not truncated: a repr
-    without exponent is written as it is; one with exponent is replaced by its positional form (same value, harness table) -/
-theorem C01_plain_leaf (P : Params) (s : String) : (Prim.decPlain P).norm s = decimalToStr P s := rfl
-
-theorem C01_decimalToStr_plain (P : Params) (s : String) (h : s.toList.contains 'e' = false) (h' : s.toList.contains 'E' = false) :
-    decimalToStr P s = s := by
-  simp only [decimalToStr, h, h', Bool.or_self, Bool.false_eq_true, ↓reduceIte]
-theorem C01_real_leaf (P : Params) (s : String) : (Prim.dec P).norm s = floatToStr P s := rfl
+/-- (definitional: documents the model, carries no proof content) the `norm` field of each leaf codec: integers, booleans,
+    enumeration values and bare-`str()` reals come back as they are; a `float_to_str` real as `floatToStr P s`, a
+    `decimal_to_str` real as `decimalToStr P s`.  What these two functions do to the VALUE is `C01_floatToStr_close` and
+    `C01_decimalToStr_val` below. -/
+theorem C01_leaf_norms (P : Params) :
+    (∀ i, Prim.int.norm i = i) ∧ (∀ b, Prim.boolStrict.norm b = b) ∧ (∀ vals s, (Prim.enum vals).norm s = s) ∧
+    (∀ s, Prim.decRepr.norm s = s) ∧ (∀ s, (Prim.decPlain P).norm s = decimalToStr P s) ∧ (∀ s, (Prim.dec P).norm s = floatToStr P s) :=
+  ⟨fun _ => rfl, fun _ => rfl, fun _ _ => rfl, fun _ => rfl, fun _ => rfl, fun _ => rfl⟩
 
 /-- a repr without exponent is cut after `d` fraction digits -/
 theorem C01_floatToStr_plain (P : Params) (s : String) (h : s.toList.contains 'e' = false) :
@@ -101,17 +103,37 @@ theorem C01_trunc_close (d : Nat) (fp : List Char) (h : ∀ c, c ∈ fp → c.is
 
 theorem C01_trunc_short (d : Nat) (fp : List Char) (hd : fp.length ≤ d) : fp.take d = fp := List.take_of_length_le hd
 
+/-! ## the value of a written real: `realVal : String → ℚ` (CRModel/DecVal.lean) -/
+
+/-- **reals within 10^-d, on the text the codec handles**: for a plain decimal repr `s` (`[-]digits[.digits]`), the text
+    `float_to_str` writes is a plain decimal whose exact value differs from the value of `s` by less than 10^-d and is not
+    larger in magnitude (truncation towards zero).  This composes `C01_floatToStr_plain`, `C01_trunc_decimal` and
+    `C01_trunc_close` and passes from digit lists to `realVal` of strings. -/
+theorem C01_floatToStr_plain_close (P : Params) (s : String) (h : PlainDec s) :
+    PlainDec (floatToStr P s) ∧ |realVal (floatToStr P s) - realVal s| < 1 / 10 ^ P.d ∧ |realVal (floatToStr P s)| ≤ |realVal s| :=
+  floatToStr_plain_close P s h
+
+/-- the same for EVERY repr (plain or exponent notation), under the contract `FixOk` of the exponent-notation tables
+    (`format(x, ".<d>f")` is a plain decimal within 10^-d of x) and coverage of the repr by the table -/
+theorem C01_floatToStr_close (P : Params) (hP : FixOk P) (s : String) (hs : ReprForm s) (hc : FixCovered P s) :
+    PlainDec (floatToStr P s) ∧ |realVal (floatToStr P s) - realVal s| < 1 / 10 ^ P.d := floatToStr_close P hP s hs hc
+
+/-- a real written with `decimal_to_str` keeps its exact value (contract: the positional form denotes the same number) -/
+theorem C01_decimalToStr_val (P : Params) (hP : FixOk P) (s : String) (hc : PosCovered P s) :
+    realVal (decimalToStr P s) = realVal s := decimalToStr_val P hP s hc
+
 /-! ## states: which attributes are populated, exact / interval / region, time -/
 
-/-- a field keeps its name and its kind; a time is untouched; exact stays exact, interval stays interval -/
+/-- (definitional: documents the model, carries no proof content) a field keeps its name and its kind; a time is untouched;
+    exact stays exact, interval stays interval, a region stays a region (its shape goes through the static shape codec) -/
 theorem C01_field_kind (P : Params) (n : String) :
     (∀ t, normField P (n, .time t) = (n, .time t)) ∧
     (∀ x, normField P (n, .val (.exact x)) = (n, .val (.exact (floatToStr P x)))) ∧
     (∀ a b, normField P (n, .val (.interval a b)) = (n, .val (.interval (floatToStr P a) (floatToStr P b)))) ∧
     (∀ p, normField P (n, .pos (.point p)) = (n, .pos (.point ⟨floatToStr P p.x, floatToStr P p.y, p.z.map (floatToStr P)⟩))) ∧
     (∀ ids, normField P (n, .pos (.lanelets ids)) = (n, .pos (.lanelets ids))) ∧
-    (∀ s, ∃ s', normField P (n, .pos (.region s)) = (n, .pos (.region s'))) :=
-  ⟨fun _ => rfl, fun _ => rfl, fun _ _ => rfl, fun _ => rfl, fun _ => rfl, fun _ => ⟨_, rfl⟩⟩
+    (∀ s, normField P (n, .pos (.region s)) = (n, .pos (.region ((shapeC P false).norm s)))) :=
+  ⟨fun _ => rfl, fun _ => rfl, fun _ _ => rfl, fun _ => rfl, fun _ => rfl, fun _ => rfl⟩
 
 theorem pick_mem (nf : List (String × SVal)) (a : String) (q : String × SVal) (h : pick nf a = some q) : q ∈ nf ∧ q.1 = a := by
   induction nf with
@@ -178,21 +200,49 @@ theorem C01_state_fields_perm (cfg : Cfg) (hnd : ∀ C, C ∈ cfg.classes → C.
       rw [hkeys]
     omega
 
-/-- **unset initial-state attributes read back as 0** and set ones as their round-tripped value: an initial state reads
-    back with exactly the attributes of `InitialState` -/
+/-- (definitional: documents the model, carries no proof content) **unset initial-state attributes read back as 0** and set
+    ones as their round-tripped value: an initial state reads back with exactly the attributes of `InitialState`.  The content
+    is in `decInitial_encState` (this IS what the reader does, part of `C01_xml_roundtrip`) and `C01_initial_extra_dropped`. -/
 theorem C01_initial_defaults (cfg : Cfg) (C : List String) (Cs : List (List String)) (hc : cfg.classes = C :: Cs) (s : State) :
     (normInitial cfg s).fields =
       C.map (fun a => (a, (lookupField a (s.fields.map (normField cfg.P))).getD (defaultOf a))) := by
   simp only [normInitial, hc]
 
+/-- (definitional: documents the model, carries no proof content) the defaults of `State.fill_with_defaults` -/
 theorem C01_default_values : defaultOf "position" = .pos (.point ⟨"0.0", "0.0", none⟩) ∧ defaultOf "velocity" = .val (.exact "0.0")
     ∧ defaultOf "acceleration" = .val (.exact "0.0") ∧ defaultOf "yaw_rate" = .val (.exact "0.0")
     ∧ defaultOf "slip_angle" = .val (.exact "0.0") ∧ defaultOf "orientation" = .val (.exact "0.0") := by
   refine ⟨?_, ?_, ?_, ?_, ?_, ?_⟩ <;> rfl
 
+theorem lookupField_map_none (C : List String) (g : String → SVal) (a : String) (h : ¬ a ∈ C) :
+    lookupField a (C.map (fun c => (c, g c))) = none := by
+  induction C with
+  | nil => rfl
+  | cons c r ih =>
+    have hne : c ≠ a := fun e => h (by simp [e])
+    have hb : (c == a) = false := by simpa using hne
+    simp only [List.map_cons, lookupField, hb, Bool.false_eq_true, ↓reduceIte]
+    exact ih (fun hm => h (by simp [hm]))
+
+/-- **What an initial state LOSES**: every attribute that is not an attribute of the first state class (`InitialState`) is
+    absent after the round trip — the reader fills an `InitialState` and ignores the other children of `<initialState>`
+    (file_reader_xml.py `StateFactory.create_from_xml_node(..., is_initial_state=True)`).  This is a genuine loss of the
+    writer / reader pair, outside the quantifier of the property for the following reason, checked on the real code
+    (harness `witness_initial_extra`): `Obstacle.initial_state` only accepts `InitialState` objects, whose dataclass fields are
+    exactly the six of the class (AssertionError otherwise), and the XSD type `initialStateExact` of a planning problem's
+    `<initialState>` admits no further element; such an attribute can only get there by passing a different state class
+    to `PlanningProblem` (schema-invalid file) or by `setattr` on an `InitialState` instance.  `State.StrictInitial` (used by
+    `C01_norm_close_full`) excludes these states; `C01_xml_roundtrip` covers them (with this `norm`). -/
+theorem C01_initial_extra_dropped (cfg : Cfg) (C : List String) (Cs : List (List String)) (hc : cfg.classes = C :: Cs) (s : State)
+    (a : String) (ha : ¬ a ∈ C) : lookupField a (normInitial cfg s).fields = none := by
+  simp only [normInitial, hc]
+  exact lookupField_map_none C _ a ha
+
 /-! ## nothing dropped, duplicated or re-ordered in time -/
 
-/-- **order_kept** (trajectory): the read-back trajectory has the states of the original, one for one, in the same order -/
+/-- (definitional for the list structure: `norm` of a trajectory is `List.map`, so length and order are kept by construction;
+    the content is that `decode ∘ encode` equals this `norm`, `C01_xml_roundtrip`) **order_kept** (trajectory): the read-back
+    trajectory has the states of the original, one for one, in the same order -/
 theorem C01_order_kept_trajectory (cfg : Cfg) (o : DynObs) (l : List State) (h : o.pred = .traj l) :
     ((dynObsE cfg).norm o).pred = .traj (l.map (normState cfg)) ∧ ((dynObsE cfg).norm o).id = o.id
       ∧ ((dynObsE cfg).norm o).type = o.type := by
@@ -226,7 +276,8 @@ theorem C01_order_kept_signals (cfg : Cfg) (o : DynObs) (h : o.series ≠ []) : 
     rw [this]
     simp
 
-/-- every collection of the document is mapped element by element: same length, same order, same ids -/
+/-- (definitional: documents the model, carries no proof content) every collection of the document is mapped element by
+    element: same length, same order -/
 theorem C01_collections_kept (cfg : Cfg) (d : Doc) :
     (normDoc cfg d).lanelets = d.lanelets.map (laneletE cfg.P).norm ∧
     (normDoc cfg d).signs = d.signs.map (signE cfg).norm ∧
@@ -239,15 +290,37 @@ theorem C01_collections_kept (cfg : Cfg) (d : Doc) :
     (normDoc cfg d).problems = d.problems.map (planningProblemE cfg).norm :=
   ⟨rfl, rfl, rfl, rfl, rfl, rfl, rfl, rfl, rfl⟩
 
+/-- a lanelet keeps its id on BOTH branches of `laneletE.norm` (the stop line could be completed, or it could not and the
+    codec's side condition `Lanelet.Ok` fails): the `getD` fall-through cannot change an id -/
+theorem C01_lanelet_id_kept (P : Params) (l : Lanelet) : ((laneletE P).norm l).id = l.id := by
+  show ((laneletOfTuple ((ECodec.attrKids "id" Prim.int (laneletKidsC P)).norm (laneletToTuple l))).getD l).id = l.id
+  generalize hn : (ECodec.attrKids "id" Prim.int (laneletKidsC P)).norm (laneletToTuple l) = t
+  have hid : t.1 = l.id := by rw [← hn]; rfl
+  obtain ⟨id, left, right, pred, succ, adjL, adjR, stop, types, oneWay, bidir, signs, lights⟩ := t
+  simp only [laneletOfTuple]
+  simp only at hid
+  cases completeStop left right stop with
+  | none => rfl
+  | some st => exact hid
+
+/-- ids of lanelets, signs, lights, intersections, obstacles and planning problems are kept, in order -/
 theorem C01_ids_kept (cfg : Cfg) (d : Doc) :
+    (normDoc cfg d).lanelets.map (fun s => s.id) = d.lanelets.map (fun s => s.id) ∧
     (normDoc cfg d).signs.map (fun s => s.id) = d.signs.map (fun s => s.id) ∧
+    (normDoc cfg d).lights.map (fun s => s.id) = d.lights.map (fun s => s.id) ∧
+    (normDoc cfg d).intersections.map (fun s => s.id) = d.intersections.map (fun s => s.id) ∧
     (normDoc cfg d).statics.map (fun s => s.id) = d.statics.map (fun s => s.id) ∧
     (normDoc cfg d).dynamics.map (fun s => s.id) = d.dynamics.map (fun s => s.id) ∧
+    (normDoc cfg d).phantoms.map (fun s => s.id) = d.phantoms.map (fun s => s.id) ∧
+    (normDoc cfg d).envs.map (fun s => s.id) = d.envs.map (fun s => s.id) ∧
     (normDoc cfg d).problems.map (fun s => s.id) = d.problems.map (fun s => s.id) := by
-  obtain ⟨_, h2, _, _, h5, h6, _, _, h9⟩ := C01_collections_kept cfg d
-  rw [h2, h5, h6, h9]
+  obtain ⟨h1, h2, h3, h4, h5, h6, h7, h8, h9⟩ := C01_collections_kept cfg d
+  rw [h1, h2, h3, h4, h5, h6, h7, h8, h9]
   simp only [List.map_map]
-  exact ⟨rfl, rfl, rfl, rfl⟩
+  refine ⟨?_, rfl, rfl, rfl, rfl, rfl, rfl, rfl, rfl⟩
+  apply List.map_congr_left
+  intro l _
+  exact C01_lanelet_id_kept cfg.P l
 
 /-- the one discrete value the pair does NOT reproduce (known finding): `virtual` reads back False whatever was written -/
 theorem C01_witness_virtual (cfg : Cfg) (s : Sign) : ((signE cfg).norm s).virtual = false := rfl
@@ -318,7 +391,8 @@ theorem C01_norm_close_partial (cfg : Cfg) (d : Doc) :
 
 /-! ## the whole file tree -/
 
-/-- the state-class table of a file configuration is the one every country's configuration uses -/
+/-- (definitional: documents the model, carries no proof content) the state-class table of a file configuration is the one
+    every country's configuration uses -/
 theorem FileCfg.cfgFor_classes (fc : FileCfg) (bid : String) : (fc.cfgFor bid).classes = fc.classes := rfl
 
 /-- **xml_roundtrip for the whole file**: the `<commonRoad>` element the writer builds — root attributes (time step size,
@@ -327,16 +401,29 @@ theorem FileCfg.cfgFor_classes (fc : FileCfg) (bid : String) : (fc.cfgFor bid).c
     yields `normFile` of the original.  The sign table the reader uses is the one of the country named in the benchmark id
     (`countryOf`), the date is written and never read. -/
 theorem C01_xml_roundtrip_whole_file (fc : FileCfg) (hcfg : ∀ C, C ∈ fc.classes → ∀ a, a ∈ C → propName (xmlName a) = a)
-    (hne : fc.classes ≠ []) (f : File) (hok : okFile fc f) :
+    (hne : fc.classes ≠ []) (f : File) (htab : hasTable (countryOf fc.countries f.header.benchmarkId) fc.tables = true)
+    (hok : okFile fc f) :
     decodeFile fc (encodeFile fc f) = some (normFile fc f) :=
-  decodeFile_encodeFile fc f (stateLaws (fc.cfgFor f.header.benchmarkId) hcfg hne) hok
+  decodeFile_encodeFile fc f (stateLaws (fc.cfgFor f.header.benchmarkId) hcfg hne) htab hok
 
-/-- the header comes back as written (the time step size in plain decimal notation), the date is not part of the content -/
+/-- without the sign table of the file's country the reader raises (`TrafficSignIDCountries[country.value]` is a dictionary
+    access): the hypothesis `htab` above is necessary, the `lookupTable` default is never what a successful read used -/
+theorem C01_no_table_no_read (fc : FileCfg) (f : File)
+    (htab : hasTable (countryOf fc.countries f.header.benchmarkId) fc.tables = false) : decodeFile fc (encodeFile fc f) = none := by
+  obtain ⟨h1, h2, h3, _⟩ := rootAttrs (decimalToStr fc.P f.header.dt) "2020a" f.header.benchmarkId fc.today f.header.author
+    f.header.affiliation f.header.source "" ((fileKidsC (fc.cfgFor f.header.benchmarkId)).enc (f.location, f.tags, f.body))
+  simp only [decodeFile, encodeFile]
+  rw [h1, h2, h3]
+  simp [htab]
+
+/-- (definitional: documents the model, carries no proof content) the header comes back as written (the time step size in
+    plain decimal notation), the date is not part of the content -/
 theorem C01_header_kept (fc : FileCfg) (f : File) :
     (normFile fc f).header = ⟨decimalToStr fc.P f.header.dt, f.header.author, f.header.affiliation, f.header.source, f.header.benchmarkId⟩ :=
   rfl
 
-/-- the tags come back as the set they are: each known tag once, in the order of the `Tag` enumeration -/
+/-- (definitional: documents the model, carries no proof content) the tags come back as the set they are: each known tag once,
+    in the order of the `Tag` enumeration -/
 theorem C01_tags_kept (fc : FileCfg) (f : File) : (normFile fc f).tags = allTags.filter (fun t => f.tags.contains t) := rfl
 
 /-- **norm_close for the whole file**: `normFile = mapR ∘ canon` (a missing location becomes the default location, the tags
@@ -354,6 +441,65 @@ example : countryOf ["DEU", "USA", "ZAM"] "C-USA_US101-1_1_T-1" = "USA" ∧ coun
 
 /-- the clock text: 7:05 is written "07:05:00" and read back as (7, 5) -/
 example : Prim.clock.fmt (7, 5) = "07:05:00" ∧ Prim.clock.read "07:05:00" = some (7, 5) := by decide
+
+/-! ## the "< 10^-d" clause, for every real of a read-back document -/
+
+/-- a `float_to_str` real read back: a plain decimal text whose exact value is within 10^-d of the original's -/
+def CloseF (P : Params) (s t : String) : Prop := PlainDec t ∧ |realVal t - realVal s| < 1 / 10 ^ P.d
+
+/-- a `decimal_to_str` real read back: the same exact value -/
+def SameVal (s t : String) : Prop := realVal t = realVal s
+
+/-- `mapR` with the two writer formats relates every real leaf of `x` to the corresponding leaf of the result (same number of
+    leaves, same order): within 10^-d for the truncated ones, equal value for the ones written in full -/
+theorem C01_mapR_reals_close (P : Params) (hP : FixOk P) (x : Doc)
+    (hF : ∀ s, s ∈ x.realsF → ReprForm s ∧ FixCovered P s) (hG : ∀ s, s ∈ x.realsG → PosCovered P s) :
+    List.Forall₂ (CloseF P) x.realsF (x.mapR (realMaps P)).realsF ∧ List.Forall₂ SameVal x.realsG (x.mapR (realMaps P)).realsG := by
+  rw [Doc.realsF_mapR, Doc.realsG_mapR]
+  exact ⟨forall₂_map_of _ _ (fun s hs => floatToStr_close P hP s (hF s hs).1 (hF s hs).2),
+    forall₂_map_of _ _ (fun s hs => decimalToStr_val P hP s (hG s hs))⟩
+
+/-- **norm_close with the bound, strict documents**: the read-back document IS the original with its reals formatted
+    (`C01_norm_close_full`), and every real leaf (listed by `Doc.realsF` / `Doc.realsG`) of the read-back document has an
+    exact value within 10^-d of (resp. equal to) the value of the corresponding leaf of the original.  Hypotheses on the reals:
+    each is a float repr (plain or exponent notation) that the harness tables cover, and the tables meet `FixOk`. -/
+theorem C01_norm_reals_close (cfg : Cfg) (hP : FixOk cfg.P) (hd : 1 ≤ cfg.P.d) (hne : cfg.classes ≠ []) (d : Doc) (hs : d.Strict cfg)
+    (hF : ∀ s, s ∈ d.realsF → ReprForm s ∧ FixCovered cfg.P s) (hG : ∀ s, s ∈ d.realsG → PosCovered cfg.P s) :
+    normDoc cfg d = d.mapR (realMaps cfg.P) ∧
+    List.Forall₂ (CloseF cfg.P) d.realsF (normDoc cfg d).realsF ∧ List.Forall₂ SameVal d.realsG (normDoc cfg d).realsG := by
+  have h := C01_norm_close_full cfg hd hne d hs
+  rw [h]
+  exact ⟨rfl, C01_mapR_reals_close cfg.P hP d hF hG⟩
+
+/-- the same without strictness: the leaves are those of `canon d` (the document after the discrete completions) -/
+theorem C01_norm_reals_close_canon (cfg : Cfg) (hP : FixOk cfg.P) (hd : 1 ≤ cfg.P.d) (hne : cfg.classes ≠ []) (d : Doc)
+    (hl : ∀ l, l ∈ d.lanelets → l.Ok)
+    (hF : ∀ s, s ∈ (d.canon cfg).realsF → ReprForm s ∧ FixCovered cfg.P s) (hG : ∀ s, s ∈ (d.canon cfg).realsG → PosCovered cfg.P s) :
+    List.Forall₂ (CloseF cfg.P) (d.canon cfg).realsF (normDoc cfg d).realsF ∧
+      List.Forall₂ SameVal (d.canon cfg).realsG (normDoc cfg d).realsG := by
+  rw [normDoc_eq cfg hd hne d hl]
+  exact C01_mapR_reals_close cfg.P hP (d.canon cfg) hF hG
+
+/-- **the property sentence for the body, in one statement**: what the reader returns for the written file of a strict,
+    expressible document is a document `d'` with exactly the discrete content of `d` (`d' = d.mapR …`: `mapR` changes reals
+    only) whose reals are within 10^-d of / equal in value to those of `d` -/
+theorem C01_xml_roundtrip_close (cfg : Cfg) (hcfg : CfgOk cfg) (hne : cfg.classes ≠ []) (hP : FixOk cfg.P) (hd1 : 1 ≤ cfg.P.d) (d : Doc)
+    (hd : Expressible cfg d) (hs : d.Strict cfg) (hF : ∀ s, s ∈ d.realsF → ReprForm s ∧ FixCovered cfg.P s)
+    (hG : ∀ s, s ∈ d.realsG → PosCovered cfg.P s) (pre post : List Xml) (hpre : Foreign cfg pre) (hpost : Foreign cfg post) :
+    ∃ d', decodeDoc cfg (pre ++ encodeDoc cfg d ++ post) = some d' ∧ d' = d.mapR (realMaps cfg.P) ∧
+      List.Forall₂ (CloseF cfg.P) d.realsF d'.realsF ∧ List.Forall₂ SameVal d.realsG d'.realsG := by
+  obtain ⟨h1, h2, h3⟩ := C01_norm_reals_close cfg hP hd1 hne d hs hF hG
+  exact ⟨normDoc cfg d, C01_xml_roundtrip cfg hcfg hne d hd pre post hpre hpost, h1, h2, h3⟩
+
+/-- the whole file: time step size, gps and geo-transformation numbers keep their value, the body as above -/
+theorem C01_file_reals_close (fc : FileCfg) (hP : FixOk fc.P) (hd : 1 ≤ fc.P.d) (hne : fc.classes ≠ []) (f : File) (hs : f.Strict fc)
+    (hF : ∀ s, s ∈ f.realsF → ReprForm s ∧ FixCovered fc.P s) (hG : ∀ s, s ∈ f.realsG → PosCovered fc.P s) :
+    normFile fc f = f.mapR (realMaps fc.P) ∧
+    List.Forall₂ (CloseF fc.P) f.realsF (normFile fc f).realsF ∧ List.Forall₂ SameVal f.realsG (normFile fc f).realsG := by
+  have h := C01_file_norm_close_full fc hd hne f hs
+  rw [h, File.realsF_mapR, File.realsG_mapR]
+  exact ⟨rfl, forall₂_map_of _ _ (fun s hm => floatToStr_close fc.P hP s (hF s hm).1 (hF s hm).2),
+    forall₂_map_of _ _ (fun s hm => decimalToStr_val fc.P hP s (hG s hm))⟩
 
 /-! ## non-vacuity -/
 
@@ -377,38 +523,243 @@ def realClasses : List (List String) :=
    ["time_step", "longitudinal_position", "velocity", "acceleration", "jerk"],
    ["time_step", "position", "velocity", "orientation", "acceleration"]]
 
-def realCfg (d : Nat) : Cfg := ⟨⟨d, [], []⟩, realClasses, ["274", "206", "205"], some "274"⟩
+def realCfgT (P : Params) : Cfg := ⟨P, realClasses, ["274", "206", "205"], some "274"⟩
+
+def realCfg (d : Nat) : Cfg := realCfgT ⟨d, [], []⟩
+
+/-- precision 4 with the table entries Python produces for the repr "1e-05": `format(1e-05, ".4f")` and
+    `np.format_float_positional(1e-05, trim="0")` -/
+def realCfg4 : Cfg := realCfgT ⟨4, [("1e-05", "0.0000")], [("1e-05", "0.00001")]⟩
 
 /-- the hypotheses of `C01_xml_roundtrip` hold for the real class table at every precision -/
 theorem C01_realCfg_ok (d : Nat) : CfgOk (realCfg d) ∧ (realCfg d).classes ≠ [] ∧ ∀ C, C ∈ (realCfg d).classes → C.Nodup := by
-  refine ⟨?_, by simp [realCfg, realClasses], ?_⟩
+  refine ⟨?_, by simp [realCfg, realCfgT, realClasses], ?_⟩
   · show ∀ C, C ∈ realClasses → ∀ a, a ∈ C → propName (xmlName a) = a
     decide
   · show ∀ C, C ∈ realClasses → C.Nodup
     decide
 
-/-- a state as a trajectory carries it (KS model, one interval value) is well-formed in the sense of `okState` -/
-example : okState (realCfg 4).P false
-    ⟨[("time_step", .time (.exact 3)), ("position", .pos (.point ⟨"1.23456", "-0.5", none⟩)), ("steering_angle", .val (.exact "0.01")),
-      ("velocity", .val (.interval "9.87654321" "10.0")), ("orientation", .val (.exact "1e-05"))]⟩ := by
+/-! ### a non-trivial document: one lanelet, one dynamic obstacle with a two-state trajectory, one planning problem -/
+
+def exLanelet : Lanelet :=
+  ⟨1, ⟨[⟨"0.0", "3.5", none⟩, ⟨"10.0", "3.5", none⟩], "solid"⟩, ⟨[⟨"0.0", "0.0", none⟩, ⟨"10.0", "0.0", none⟩], "dashed"⟩, [], [], none, none,
+   none, ["urban"], ["car"], [], [], []⟩
+
+def exInit (x y : String) : State :=
+  ⟨[("time_step", .time (.exact 0)), ("position", .pos (.point ⟨x, y, none⟩)), ("orientation", .val (.exact "0.1")),
+    ("velocity", .val (.exact "8.0")), ("acceleration", .val (.exact "0.0")), ("yaw_rate", .val (.exact "0.25")),
+    ("slip_angle", .val (.exact "0.0"))]⟩
+
+/-- a KS state with an interval velocity and an orientation whose repr is in exponent notation -/
+def exKS (t : Int) (x : String) : State :=
+  ⟨[("time_step", .time (.exact t)), ("position", .pos (.point ⟨x, "1.75", none⟩)), ("steering_angle", .val (.exact "0.01")),
+    ("velocity", .val (.interval "7.123456" "8.0")), ("orientation", .val (.exact "1e-05"))]⟩
+
+def exDyn : DynObs :=
+  ⟨7, "car", .one (.rect "4.5" "1.8" "0.0" zeroPt), exInit "2.0" "1.75", none, .traj [exKS 1 "2.8123456", exKS 2 "3.6"], []⟩
+
+def exGoal : State := ⟨[("time_step", .time (.interval 10 20)), ("position", .pos (.lanelets [1]))]⟩
+
+def exPP : PlanningProblem := ⟨100, exInit "1.0" "1.75", [exGoal]⟩
+
+def exDoc : Doc := ⟨[exLanelet], [], [], [], [], [exDyn], [], [], [exPP]⟩
+
+theorem rv_sci : realVal "1e-05" = 1 / 100000 := by
+  have h : ("1e-05" : String).toList = ['1', 'e', '-', '0', '5'] := by decide
+  have d1 : ('1' : Char).toNat = 49 := by decide
+  have d0 : ('0' : Char).toNat = 48 := by decide
+  have d5 : ('5' : Char).toNat = 53 := by decide
+  simp [realVal, h, realValChars, splitE, decValChars, unsignedVal, splitDot, natOf, intOfChars, scale10, d1, d0, d5]
+
+theorem rv_fix : realVal "0.0000" = 0 := by
+  have h : ("0.0000" : String).toList = ['0', '.', '0', '0', '0', '0'] := by decide
+  have d0 : ('0' : Char).toNat = 48 := by decide
+  simp [realVal, h, realValChars, splitE, decValChars, unsignedVal, splitDot, natOf, fracValR, d0]
+
+theorem rv_pos : realVal "0.00001" = 1 / 100000 := by
+  have h : ("0.00001" : String).toList = ['0', '.', '0', '0', '0', '0', '1'] := by decide
+  have d0 : ('0' : Char).toNat = 48 := by decide
+  have d1 : ('1' : Char).toNat = 49 := by decide
+  simp [realVal, h, realValChars, splitE, decValChars, unsignedVal, splitDot, natOf, fracValR, d0, d1]
+
+theorem fc4 (s : String) (h : s.toList.contains 'e' = false) : FixCovered realCfg4.P s := fixCovered_plain _ s h
+theorem fc4_e : FixCovered realCfg4.P "1e-05" := fun _ => by decide
+
+theorem okVal_ex (n : String) (v : Val) (goal : Bool) (hn : n ≠ "position" ∧ n ≠ "time_step" ∧ propName (xmlName n) = n ∧ xmlName n ≠ "position"
+    ∧ xmlName n ≠ "time" ∧ xmlNameGoal n = xmlName n) (hv : (valC realCfg4.P).ok v) : okField realCfg4.P goal (n, .val v) :=
+  ⟨hn.1, hn.2.1, hn.2.2.1, hn.2.2.2.1, hn.2.2.2.2.1, fun _ => hn.2.2.2.2.2, hv⟩
+
+theorem okPoint_ex (x y : String) (hx : FixCovered realCfg4.P x) (hy : FixCovered realCfg4.P y) :
+    okField realCfg4.P false ("position", .pos (.point ⟨x, y, none⟩)) :=
+  ⟨rfl, rfl, hx, hy, fun v hv => by cases hv⟩
+
+theorem okInit_ex (x y : String) (hx : FixCovered realCfg4.P x) (hy : FixCovered realCfg4.P y) : okState realCfg4.P false (exInit x y) := by
+  refine ⟨?_, ?_⟩
+  · show (["time_step", "position", "orientation", "velocity", "acceleration", "yaw_rate", "slip_angle"] : List String).Nodup
+    decide
+  intro f hf
+  simp only [exInit, List.mem_cons, List.not_mem_nil, or_false] at hf
+  rcases hf with rfl | rfl | rfl | rfl | rfl | rfl | rfl
+  · exact ⟨rfl, fun _ => ⟨0, rfl⟩⟩
+  · exact okPoint_ex x y hx hy
+  all_goals exact okVal_ex _ _ false (by decide) (fc4 _ (by decide))
+
+theorem okKS_ex (t : Int) (x : String) (hx : FixCovered realCfg4.P x) : okState realCfg4.P false (exKS t x) := by
+  refine ⟨?_, ?_⟩
+  · show (["time_step", "position", "steering_angle", "velocity", "orientation"] : List String).Nodup
+    decide
+  intro f hf
+  simp only [exKS, List.mem_cons, List.not_mem_nil, or_false] at hf
+  rcases hf with rfl | rfl | rfl | rfl | rfl
+  · exact ⟨rfl, fun _ => ⟨t, rfl⟩⟩
+  · exact okPoint_ex x "1.75" hx (fc4 _ (by decide))
+  · exact okVal_ex _ _ false (by decide) (fc4 _ (by decide))
+  · exact okVal_ex _ (.interval "7.123456" "8.0") false (by decide) ⟨fc4 _ (by decide), fc4 _ (by decide)⟩
+  · exact okVal_ex _ _ false (by decide) fc4_e
+
+theorem okGoal_ex : okState realCfg4.P true exGoal := by
   refine ⟨by decide, ?_⟩
   intro f hf
-  simp only [List.mem_cons, List.mem_nil_iff, or_false] at hf
-  rcases hf with rfl | rfl | rfl | rfl | rfl
-  · exact ⟨rfl, fun _ => ⟨3, rfl⟩⟩
-  · exact ⟨rfl, rfl⟩
-  · exact ⟨by decide, by decide, by decide, by decide, by decide, fun h => by cases h⟩
-  · exact ⟨by decide, by decide, by decide, by decide, by decide, fun h => by cases h⟩
-  · exact ⟨by decide, by decide, by decide, by decide, by decide, fun h => by cases h⟩
+  simp only [exGoal, List.mem_cons, List.not_mem_nil, or_false] at hf
+  rcases hf with rfl | rfl
+  · exact ⟨rfl, fun h => by cases h⟩
+  · exact ⟨rfl, rfl, by decide⟩
 
-/-- the empty body is expressible (so are bodies built from well-formed parts: `Expressible` is the conjunction of the
-    parts' `ok`), and the digit-string hypotheses of `C01_trunc_close` are met by "0.123456" at d = 4 -/
-example : Expressible (realCfg 4) ⟨[], [], [], [], [], [], [], [], []⟩ := by
-  simp [Expressible, docC, Codec.iso, Codec.pair, Codec.many]
+set_option maxRecDepth 4000 in
+/-- **the hypotheses of the round-trip theorems are jointly satisfiable on a non-trivial document**: `exDoc` (a lanelet, a
+    dynamic obstacle with a trajectory whose states carry an interval value and an exponent-notation repr, a planning problem
+    with a lanelet goal) is `Expressible` -/
+theorem C01_exDoc_expressible : Expressible realCfg4 exDoc := by
+  have h1 := okInit_ex "2.0" "1.75" (fc4 _ (by decide)) (fc4 _ (by decide))
+  have h2 := okInit_ex "1.0" "1.75" (fc4 _ (by decide)) (fc4 _ (by decide))
+  have h3 := okKS_ex 1 "2.8123456" (fc4 _ (by decide))
+  have h4 := okKS_ex 2 "3.6" (fc4 _ (by decide))
+  have h5 := okGoal_ex
+  simp only [Expressible, docC, laneletE, ECodec.pmap, ECodec.attrKids, laneletKidsC, Codec.pair, Codec.child, boundE, ECodec.ofKids, Codec.iso,
+    Codec.many, Codec.optChild, Codec.optional, refsC, adjC, typesC, usersC, stopLineE, refE, ECodec.attr1, ECodec.ofText, Prim.int, Prim.enum,
+    pt3E, ptE, ptKidsC, Prim.dec, Prim.decPlain, laneletToTuple, exLanelet, exDoc, exDyn, exPP, dynObsE, planningProblemE, signE, lightE,
+    intersectionE, staticObsE, envObsE, phantomObsE, typeC, shapeC, Codec.pmap, Codec.manyOf, okShape1, rectE, orientC, centerC,
+    initialStateE, goalStateE, stateE, predC, trajE, occSetE, seriesC, signalE, zeroPt]
+  simp +decide [FixCovered, PosCovered, h1, h2, h3, h4, h5]
 
-example : (∀ c, c ∈ ['1', '2', '3', '4', '5', '6'] → c.isDigit = true) ∧ 4 ≤ ['1', '2', '3', '4', '5', '6'].length := by decide
+theorem strictInit_ex (x y : String) : (exInit x y).StrictInitial realCfg4 := by
+  refine ⟨?_, ?_, ?_⟩
+  · show (["time_step", "position", "orientation", "velocity", "acceleration", "yaw_rate", "slip_angle"] : List String).Nodup
+    decide
+  · intro f hf
+    simp only [exInit, List.mem_cons, List.not_mem_nil, or_false] at hf
+    rcases hf with rfl | rfl | rfl | rfl | rfl | rfl | rfl <;> trivial
+  · intro C Cs h
+    cases h
+    rfl
+
+theorem strictKS_ex (t : Int) (x : String) : (exKS t x).Strict realCfg4 := by
+  refine ⟨?_, ?_, ?_⟩
+  · show (["time_step", "position", "steering_angle", "velocity", "orientation"] : List String).Nodup
+    decide
+  · intro f hf
+    simp only [exKS, List.mem_cons, List.not_mem_nil, or_false] at hf
+    rcases hf with rfl | rfl | rfl | rfl | rfl <;> trivial
+  · intro C hC
+    have : classOf realCfg4.classes (exKS t x).fields = some ["time_step", "position", "steering_angle", "velocity", "orientation"] := by
+      rfl
+    rw [this] at hC
+    cases hC
+    rfl
+
+/-- … and `Strict` -/
+theorem C01_exDoc_strict : exDoc.Strict realCfg4 := by
+  constructor <;> intro x hx <;> simp only [exDoc, List.mem_singleton, List.not_mem_nil] at hx
+  · subst hx
+    refine ⟨?_, ?_, by decide, ?_⟩
+    · intro a h; simp [exLanelet] at h
+    · intro a h; simp [exLanelet] at h
+    · intro s h; simp [exLanelet] at h
+  · subst hx
+    refine ⟨⟨rfl, fun _ => ⟨fun _ => rfl, fun _ => rfl⟩⟩, strictInit_ex _ _, ?_⟩
+    intro s hs
+    simp only [List.mem_cons, List.not_mem_nil, or_false] at hs
+    rcases hs with rfl | rfl <;> exact strictKS_ex _ _
+  · subst hx
+    refine ⟨strictInit_ex _ _, ?_⟩
+    intro g hg
+    simp only [exPP, List.mem_singleton] at hg
+    subst hg
+    refine ⟨by decide, ?_, ?_⟩
+    · intro f hf
+      simp only [exGoal, List.mem_cons, List.not_mem_nil, or_false] at hf
+      rcases hf with rfl | rfl <;> trivial
+    · intro C hC
+      have : classOf realCfg4.classes exGoal.fields = none := by rfl
+      rw [this] at hC
+      cases hC
+
+/-- the table entries of `realCfg4` meet the contract `FixOk`: "0.0000" is a plain decimal within 10^-4 of 1e-05,
+    "0.00001" is a plain decimal of the same value -/
+theorem C01_exCfg_fixOk : FixOk realCfg4.P := by
+  constructor
+  · intro k v h
+    have hk : k = "1e-05" ∧ v = "0.0000" := by
+      simp only [realCfg4, realCfgT, lookupFix] at h
+      split at h
+      · next hk => exact ⟨(show "1e-05" = k by simpa using hk).symm, by cases h; rfl⟩
+      · cases h
+    obtain ⟨rfl, rfl⟩ := hk
+    refine ⟨isPlainB_sound _ (by decide), ?_⟩
+    rw [rv_fix, rv_sci]
+    norm_num [realCfg4, realCfgT]
+  · intro k v h
+    have hk : k = "1e-05" ∧ v = "0.00001" := by
+      simp only [realCfg4, realCfgT, lookupFix] at h
+      split at h
+      · next hk => exact ⟨(show "1e-05" = k by simpa using hk).symm, by cases h; rfl⟩
+      · cases h
+    obtain ⟨rfl, rfl⟩ := hk
+    exact ⟨isPlainB_sound _ (by decide), by rw [rv_pos, rv_sci]⟩
+
+/-- every real leaf of `exDoc` is a float repr covered by the tables (among them "1e-05" and "7.123456") -/
+theorem C01_exDoc_reals : (∀ s, s ∈ exDoc.realsF → ReprForm s ∧ FixCovered realCfg4.P s) ∧ (∀ s, s ∈ exDoc.realsG → PosCovered realCfg4.P s) := by
+  have hF : exDoc.realsF.all (fun s => reprFormB s && (!s.toList.contains 'e' || (lookupFix s realCfg4.P.fix).isSome)) = true := by decide
+  have hG : exDoc.realsG.all (fun s => !(s.toList.contains 'e' || s.toList.contains 'E') || (lookupFix s realCfg4.P.pos).isSome) = true := by decide
+  constructor
+  · intro s hs
+    have := List.all_eq_true.1 hF s hs
+    simp only [Bool.and_eq_true, Bool.or_eq_true, Bool.not_eq_true'] at this
+    refine ⟨reprFormB_sound s this.1, fun he => ?_⟩
+    rcases this.2 with h | h
+    · rw [h] at he; cases he
+    · exact h
+  · intro s hs
+    have := List.all_eq_true.1 hG s hs
+    simp only [Bool.or_eq_true, Bool.not_eq_true'] at this
+    intro he
+    rcases this with h | h
+    · rw [h] at he; cases he
+    · exact h
+
+/-- all hypotheses of `C01_xml_roundtrip_close` hold together for `exDoc`: its conclusion is not vacuous -/
+theorem C01_exDoc_roundtrip_close :
+    ∃ d', decodeDoc realCfg4 (encodeDoc realCfg4 exDoc) = some d' ∧ d' = exDoc.mapR (realMaps realCfg4.P) ∧
+      List.Forall₂ (CloseF realCfg4.P) exDoc.realsF d'.realsF ∧ List.Forall₂ SameVal exDoc.realsG d'.realsG := by
+  have hcfg : CfgOk realCfg4 ∧ realCfg4.classes ≠ [] := ⟨(C01_realCfg_ok 4).1, (C01_realCfg_ok 4).2.1⟩
+  have := C01_xml_roundtrip_close realCfg4 hcfg.1 hcfg.2 C01_exCfg_fixOk (by decide) exDoc C01_exDoc_expressible C01_exDoc_strict
+    C01_exDoc_reals.1 C01_exDoc_reals.2 [] [] (fun _ h => by cases h) (fun _ h => by cases h)
+  simpa using this
+
+/-- **witness of the initial-state attribute loss**: an initial state that also carries `steering_angle` (what
+    `PlanningProblem(…, STState(…), …)` hands to the writer) reads back without it.  Replayed on the real code by the harness
+    (`witness_initial_extra`); outside the property's quantifier, see `C01_initial_extra_dropped`. -/
+theorem C01_witness_initial_extra_dropped :
+    let s : State := ⟨(exInit "1.0" "1.75").fields ++ [("steering_angle", .val (.exact "0.25"))]⟩
+    (lookupField "steering_angle" s.fields).isSome = true ∧ lookupField "steering_angle" (normInitial realCfg4 s).fields = none := by
+  intro s
+  exact ⟨rfl, C01_initial_extra_dropped realCfg4 _ _ rfl s "steering_angle" (by decide)⟩
 
 example : truncChars 4 "-12.3456789".toList = "-12.3456".toList := by decide
+
+/-- the two exact values: "7.123456" is written "7.1234" at d = 4 -/
+example : floatToStr realCfg4.P "7.123456" = "7.1234" ∧ floatToStr realCfg4.P "1e-05" = "0.0000" ∧ decimalToStr realCfg4.P "1e-05" = "0.00001" := by
+  decide
 
 /-- a document with a lanelet (adjacent reference, stop line with points), a traffic light and an environment obstacle with a
     shape group meets `Doc.Strict` -/
@@ -460,10 +811,13 @@ example : let f : File := ⟨⟨"0.1", some "A. Author", some "TUM", some "handc
   · refine ⟨?_, trivial, ?_⟩
     · intro v hv
       cases hv
-      refine ⟨trivial, trivial, trivial, ?_, ?_⟩
+      refine ⟨trivial, posCovered_plain _ _ (by decide), posCovered_plain _ _ (by decide), ?_, ?_⟩
       · intro g hg
         cases hg
-        exact ⟨⟨trivial, fun a ha => by cases ha; exact ⟨trivial, trivial, trivial, trivial⟩⟩, rfl⟩
+        exact ⟨⟨trivial, fun a ha => by
+          cases ha
+          exact ⟨posCovered_plain _ _ (by decide), posCovered_plain _ _ (by decide), posCovered_plain _ _ (by decide),
+            posCovered_plain _ _ (by decide)⟩⟩, rfl⟩
       · intro e he
         cases he
         refine ⟨⟨by decide, by decide⟩, ?_, ?_, ?_⟩
